@@ -865,7 +865,15 @@ def bottomup_cases(chk, n, given=None):
                     if any(p is not None for p in inst["pts"])]
             w = c03.oracle(sc, b, pred)
             if w:
-                why.append(f"frame {b}: {w}")
+                # labels-level reassembly is C03's property (with its own knife-edge policy); here it only
+                # counts when the frame ALONE reassembles and the same frame inside the batch does not
+                pa = [[None if p is None else (p[0], p[1]) for p in inst["pts"]] for inst in alone[b]["insts"]
+                      if any(p is not None for p in inst["pts"])]
+                sub1 = dict(sc); sub1["frames"] = [sc["frames"][b]]; sub1["effs"] = [sc["effs"][b]]
+                if c03.oracle(sub1, 0, pa) is None:
+                    why.append(f"frame {b}: alone it is reassembled, in the batch: {w}")
+                else:
+                    chk.tag("bottomup_frame_not_reassembled_even_alone_left_to_C03")
         # ---- plumbing vs model: the per-sample split of the flat peak list
         g, vals, sinds, chans = flat
         fl = [str(nF)]
